@@ -10,5 +10,7 @@ CONSTANTS
   DevPeekWholeBuffer = FALSE
   DevErrorBeforeData = FALSE
   DevPeekAtStreamEnd = FALSE
-INVARIANTS TypeOK C05_ExactEnd C02_AllOutput C11_NoWait C11_DataFirst C15_SameError C03_PrefixOnly
+  MaxResets = 1
+  DevResetKeepsWindow = FALSE
+INVARIANTS TypeOK C05_ExactEnd C02_AllOutput C11_NoWait C11_DataFirst C15_SameError C03_PrefixOnly C13_NoLeak
 CHECK_DEADLOCK FALSE
